@@ -114,6 +114,10 @@ example : (run (init 2) [.acquire 0 1, .acquire 1 1, .acquire 2 1, .acquire 3 1,
 -- a newcomer arriving between the wake-up of B and B running again finds nothing free: it queues (cap 2, weights 2)
 example : (run (init 2) [.acquire 0 2, .acquire 1 2, .release 0, .acquire 2 2]).map (·.1)
     = some ⟨0, [(2, 2)], [(1, 2)], []⟩ := by decide
+-- weight 0 (worker.py uses 0 mcpu for some jobs): cap 4, A (4) runs, B (4) and Z (0) queue; A releases: B is woken and takes
+-- the free value to 0, and Z, whose weight 0 fits in 0, is woken by the same loop
+example : run (init 4) [.acquire 0 4, .acquire 1 4, .acquire 2 0, .release 0]
+    = some (⟨0, [], [(1, 4), (2, 0)], []⟩, [.grantNow 0, .enqueue 1, .enqueue 2, .grantQueued 1, .grantQueued 2]) := by decide
 -- a release by a task that does not hold is not a behaviour
 example : run (init 4) [.acquire 0 2, .release 1] = none := by decide
 example : WeightsLe 4 [.acquire 0 3, .acquire 1 2, .acquire 2 1, .release 0] := by
